@@ -632,6 +632,12 @@ func kGraph(out *sink, toks []string) string {
 					f = &schema_j5pb.Field{Type: &schema_j5pb.Field_Map{Map: &schema_j5pb.MapField{ItemSchema: f, KeySchema: strProp("k").Schema}}}
 				case "d":
 					cyclicEdges++
+				case "f":
+					// flattened object field (flatten exists on object fields only; otherwise a plain reference)
+					cyclicEdges++
+					if of := f.GetObject(); of != nil && tk == "o" {
+						of.Flatten = true
+					}
 				default:
 					return "bad-op"
 				}
@@ -969,7 +975,7 @@ func genKernel(h *vh.H, i int) string {
 					if h.Chance(1, 40) {
 						target = "ZZ" // unresolved reference: assertRefsLink must refuse the schema set
 					}
-					toks = append(toks, p, vh.Pick(h, []string{"d", "d", "d", "a", "m"}), target)
+					toks = append(toks, p, vh.Pick(h, []string{"d", "d", "d", "a", "m", "f", "f"}), target)
 				}
 			}
 		}
